@@ -77,8 +77,14 @@ def check_case(ctx, r, rewriters):
             ctx.sample({"tree": r["tree"], "aliases": aliases, "expected": r["expected"]}, cap=5)
 
 
+def check_cases(ctx, records):
+    rewriters = {}
+    for r in records:
+        check_case(ctx, r, rewriters)
+
+
 def run(ctx):
-    ctx.rule = ("(tree, alias map): all trees with <= MaxOps operator/bracket nodes over 20 atoms (paths, calls named "
+    ctx.rule = ("(tree, alias map): all trees with <= MaxOps operator/bracket nodes over 22 atoms (paths, calls named "
                 "like keys, named parameters, lambdas binding key names) x 17 alias maps; non-trivial = distinct pair "
                 "whose expected result differs from the input")
     ctx.trusted = ["spec/Rewrite.tla Subst (laws checked by TLC)", "harness/project.py"]
@@ -87,9 +93,7 @@ def run(ctx):
     ctx.add_tlc(res)
     if res.violation:
         ctx.violation({"kind": "model", "inv": res.violation}, {"tlc": res.raw_tail[-2000:]})
-    rewriters = {}
-    for r in res.records:
-        check_case(ctx, r, rewriters)
+    ctx.parallel(res.records, check_cases)
     ctx.exhaustive = True
 
 
